@@ -124,6 +124,9 @@ func runCase(f *Family, hdr Header, c any, src string) (res CaseResult) {
 }
 
 var (
+	genMu    sync.Mutex
+	genCases []any
+	genOut   = flag.String("gen-out", "", "gentypes: directory for types_gen.go")
 	seedFlag = flag.Int64("seed", 1, "seed for random choices")
 	progress *string
 )
@@ -160,6 +163,14 @@ func main() {
 			os.WriteFile(*out, data, 0o644)
 		}
 		return
+	}
+	if *family == "gentypes" {
+		families["gentypes"] = &Family{Run: func(hdr Header, c any, src string) CaseResult {
+			genMu.Lock()
+			genCases = append(genCases, c)
+			genMu.Unlock()
+			return CaseResult{Evals: 1}
+		}}
 	}
 	f := families[*family]
 	if f == nil {
@@ -261,6 +272,12 @@ func main() {
 	close(jobs)
 	wg.Wait()
 	sort.Slice(res.Failures, func(i, j int) bool { return res.Failures[i].Source < res.Failures[j].Source })
+	if *family == "gentypes" {
+		if err := genTypesFile(genCases, *genOut); err != nil {
+			fmt.Fprintln(os.Stderr, "vrun: gentypes:", err)
+			os.Exit(3)
+		}
+	}
 	res.WallS = time.Since(start).Seconds()
 	if digest != [32]byte{} {
 		res.Digest = hex.EncodeToString(digest[:])
